@@ -275,3 +275,153 @@ func Large(j *job.Job, s *job.Sink) {
 		}
 	}
 }
+
+// ---- stacked writers and out-of-contract underlying writers ----
+
+// refW is the reference indenting writer as a state machine: a prefix before the first
+// byte of every line, whoever delivers the bytes and in whatever pieces.
+type refW struct {
+	prefix  string
+	atStart bool
+	out     func([]byte)
+}
+
+func (w *refW) write(p []byte) {
+	if w.prefix == "" {
+		w.out(p)
+		return
+	}
+	for _, b := range p {
+		if w.atStart {
+			w.out([]byte(w.prefix))
+			w.atStart = false
+		}
+		w.out([]byte{b})
+		if b == '\n' {
+			w.atStart = true
+		}
+	}
+}
+
+type collect struct{ got []byte }
+
+func (c *collect) Write(p []byte) (int, error) { c.got = append(c.got, p...); return len(p), nil }
+
+// Stacked: an indenting writer on top of another one (as goyang's own tree printers
+// do), writes going to either of them in any interleaving, also in the middle of a line.
+// Each writer must keep to its own contract, so the bytes that reach the bottom are those
+// of two stacked reference writers.
+func Stacked(j *job.Job, s *job.Sink) {
+	texts := []string{"a", "\n", "a\n", "ab", "\na"}
+	pres := [][]string{nil, {"a"}, {"a\n"}, {"\n"}, {"ab", "\n"}}
+	type op struct {
+		child bool
+		text  string
+	}
+	var choices []op
+	for _, t := range texts {
+		choices = append(choices, op{false, t}, op{true, t})
+	}
+	var idx int64
+	for pi, p1 := range []string{">", "a", ""} {
+		for qi, p2 := range []string{"..", ">", "a"} {
+			for ri, pre := range pres {
+				if (pi*15+qi*5+ri)%j.Shards != j.Shard {
+					continue
+				}
+				var rec func(seq []op)
+				rec = func(seq []op) {
+					if len(seq) > 0 {
+						idx++
+						if idx%2048 == 0 {
+							s.Current(idx, map[string]any{"parent_prefix": p1, "child_prefix": p2, "before_child": pre, "ops": fmt.Sprint(seq)})
+						}
+						s.Count("stacked_cases", 1)
+						s.Count("nontrivial", 1)
+						// library
+						u := &collect{}
+						parent := indent.NewWriter(u, p1)
+						for _, t := range pre {
+							parent.Write([]byte(t))
+						}
+						child := indent.NewWriter(parent, p2)
+						// reference
+						var want []byte
+						rp := &refW{prefix: p1, atStart: true, out: func(b []byte) { want = append(want, b...) }}
+						for _, t := range pre {
+							rp.write([]byte(t))
+						}
+						rc := &refW{prefix: p2, atStart: true, out: rp.write}
+						bad := ""
+						for _, o := range seq {
+							var n int
+							var err error
+							if o.child {
+								n, err = child.Write([]byte(o.text))
+								rc.write([]byte(o.text))
+							} else {
+								n, err = parent.Write([]byte(o.text))
+								rp.write([]byte(o.text))
+							}
+							if err != nil || n != len(o.text) {
+								bad = fmt.Sprintf("Write(%q) returned %d, %v", o.text, n, err)
+							}
+						}
+						if bad == "" && string(u.got) != string(want) {
+							bad = fmt.Sprintf("bottom writer received %q, two stacked reference writers give %q", u.got, want)
+						}
+						if bad != "" {
+							s.Violation(idx, j.CaseID(idx), "C20.stacked", "stacked-content", fmt.Sprintf("parent prefix %q (after %q), child prefix %q, ops %v: %s", p1, pre, p2, seq, bad), map[string]any{"parent_prefix": p1, "child_prefix": p2, "before_child": pre, "ops": fmt.Sprint(seq)}, nil)
+						}
+					}
+					if len(seq) == 4 {
+						return
+					}
+					for _, c := range choices {
+						rec(append(append([]op{}, seq...), c))
+					}
+				}
+				rec(nil)
+			}
+		}
+	}
+	// an underlying writer that breaks the io.Writer contract (negative or excessive count
+	// with its error): whatever it says, the count handed to the caller stays within
+	// [0, len(buf)]
+	if j.Shard == 0 {
+		for _, prefix := range []string{">", ">>", "a"} { // not "": NewWriter then hands back the underlying writer itself
+			for _, first := range []string{"", "a", "a\n", "ab"} {
+				for _, second := range []string{"c", "c\n", "cd\ne", "\n"} {
+					for _, lie := range []int{-3, -1, 0, 1, 2, 1000} {
+						idx++
+						s.Count("out_of_contract_cases", 1)
+						u := &liar{after: len(first) + len(prefix), n: lie}
+						w := indent.NewWriter(u, prefix)
+						if first != "" {
+							w.Write([]byte(first))
+						}
+						u.armed = true
+						n, err := w.Write([]byte(second))
+						if err != nil && (n < 0 || n > len(second)) {
+							s.Violation(idx, j.CaseID(idx), "C20.stacked", "short-count-range", fmt.Sprintf("prefix %q, after %q: Write(%q) returned %d when the underlying writer claimed %d", prefix, first, second, n, lie), map[string]any{"prefix": prefix, "first": first, "second": second, "underlying_claims": lie}, nil)
+						}
+					}
+				}
+			}
+		}
+	}
+}
+
+// liar fails the first write it sees once armed, claiming n bytes written.
+type liar struct {
+	after int
+	armed bool
+	n     int
+}
+
+func (l *liar) Write(p []byte) (int, error) {
+	if !l.armed {
+		return len(p), nil
+	}
+	return l.n, errShort
+}
